@@ -96,6 +96,11 @@ def check(run, replay=None):
             return 1 if eof_hangs(run) else 0
         return 2
     run.build()
+    from . import boardsym as B
+    lm = [x for x in B.layout_mismatch(run.prog, B.UCI_LAYOUT) if x != 'uci::Uci']      # the session struct is built by Uci::new()
+    if lm:
+        run.inconclusive.append('data layout differs from what the harness encodes: %s' % ', '.join(lm))
+        return
     N = 8 if run.tier == 'quick' else 12
     run.extra['explanation'] = __doc__
     run.bounds.append('token lists of length 0..%d; every token an arbitrary word (any keyword, any decimal number up to 2^136, or junk)' % N)
